@@ -97,7 +97,7 @@ class FeeField(DataflowTransactionContext):
 
     @staticmethod
     def _get_asserted_max_value(
-        comparison_ins: "Instruction", compared_value: FeeValue
+        comparison_ins: "Instruction", compared_value: FeeValue, field_is_second_operand: bool = False
     ) -> Tuple[FeeValue, FeeValue]:
         """Return maximum possible value that will make the comparison True and maximum
         possible value that will make the comparison False. Both values are upper bounded
@@ -106,30 +106,40 @@ class FeeField(DataflowTransactionContext):
         Args:
             comparison_ins: Comparison operator.
             compared_value: fee value being compared with.
+            field_is_second_operand: True if the comparison is `compared_value OP fee` instead of
+                `fee OP compared_value`. `i < x` bounds x the way `x > i` does.
 
         Returns:
             Max possible value that will make the comparison instruction return True and
                 Max possible value that will make the comparison False.
         """
         # U = max_possible_value  # universal set
+        is_less = isinstance(comparison_ins, Less)
+        is_less_e = isinstance(comparison_ins, LessE)
+        is_greater = isinstance(comparison_ins, Greater)
+        is_greater_e = isinstance(comparison_ins, GreaterE)
+        if field_is_second_operand:
+            is_less, is_greater = is_greater, is_less
+            is_less_e, is_greater_e = is_greater_e, is_less_e
+
         if isinstance(comparison_ins, Eq):
             # x == i => i, U
             return compared_value, FeeValue()
         if isinstance(comparison_ins, Neq):
             # x != i => U, i
             return FeeValue(), compared_value
-        if isinstance(comparison_ins, Less):
+        if is_less:
             # x < i => (i - 1), U
             if compared_value.is_unknown:
                 return compared_value, FeeValue()
             return FeeValue(value=max(0, compared_value.value - 1)), FeeValue()
-        if isinstance(comparison_ins, LessE):
+        if is_less_e:
             # x <= i => i, U
             return compared_value, FeeValue()
-        if isinstance(comparison_ins, Greater):
+        if is_greater:
             # x > i => U, i
             return FeeValue(), compared_value
-        if isinstance(comparison_ins, GreaterE):
+        if is_greater_e:
             # x >= i => U, (i - 1)
             if compared_value.is_unknown:
                 return FeeValue(), compared_value
@@ -144,6 +154,7 @@ class FeeField(DataflowTransactionContext):
             arg1 = ins_stack_value.args[0]
             arg2 = ins_stack_value.args[1]
             compared_value: Optional[FeeValue] = None
+            field_is_second_operand = False
 
             if isinstance(arg1, UnknownStackValue) and isinstance(arg2, UnknownStackValue):
                 # Both the args are unknown
@@ -156,6 +167,7 @@ class FeeField(DataflowTransactionContext):
                     return FeeValue(), FeeValue()
                 # arg2 is related to key and arg1 is some unknown value
                 compared_value = FeeValue(is_unknown=True)
+                field_is_second_operand = True
             elif isinstance(arg2, UnknownStackValue):
                 if not isinstance(arg1, UnknownStackValue) and not is_value_matches_key(key, arg1):
                     # arg2 is unknown and arg1 is not related to "key"
@@ -175,13 +187,14 @@ class FeeField(DataflowTransactionContext):
                     compared_value = FeeValue(value=value)
                 else:
                     compared_value = FeeValue(is_unknown=True)
+                field_is_second_operand = True
 
             if compared_value is None:
                 # compared_value is not int.
                 return FeeValue(), FeeValue()
 
             ins = ins_stack_value.instruction
-            return self._get_asserted_max_value(ins, compared_value)
+            return self._get_asserted_max_value(ins, compared_value, field_is_second_operand)
         return FeeValue(), FeeValue()
 
     def _get_asserted_single(
